@@ -306,3 +306,93 @@ def illtyped(ctx):
     else:
         ctx.inconclusive.append("vacuity: not every option was exercised")
     ctx.sample({"bad_values": BAD})
+
+
+# ---------------------------------------------------------------------------------------
+# O4: through the REAL argparse front end: an option that is NOT given on the command line leaves the project file's value alone
+# (every option whatever its default), and one that is given wins
+# ---------------------------------------------------------------------------------------
+FILE_VALUES = {"force": True, "quiet": True, "warn": True, "graph": True, "search": False, "externalize": True, "dbg": False, "relative": None,
+               "project": "FromFile", "output_dir": "fromfile_doc", "src_dir": ["fromfile_src"], "exclude": ["x.f90"], "proc_internals": True,
+               "incl_src": False, "parallel": 3, "css": "fromfile.css", "revision": "r1"}
+CLI_FLAGS = [([], {}), (["-f"], {"force": True}), (["-q"], {"quiet": True}), (["--no-search"], {"search": False}), (["-w"], {"warn": True}),
+             (["-g"], {"graph": True}), (["--externalize"], {"externalize": True}), (["-o", "cli_doc"], {"output_dir": "cli_doc"}),
+             (["-p", "cli_pages"], {"page_dir": "cli_pages"}), (["-r", "r2"], {"revision": "r2"})]
+
+
+def _cli_effective(argv_extra):
+    """effective settings after the real get_command_line_arguments + convert_types_from_commandarguments on the FILE_VALUES settings"""
+    import io, os, sys, tempfile, contextlib
+    import ford
+    import ford.settings as st
+
+    d = tempfile.mkdtemp(prefix="fvc15-")
+    pf = os.path.join(d, "proj.md")
+    with open(pf, "w") as f:
+        f.write("---\nproject: x\n---\n")
+    old = sys.argv
+    sys.argv = ["ford"] + list(argv_extra) + [pf]
+    try:
+        with contextlib.redirect_stdout(io.StringIO()), contextlib.redirect_stderr(io.StringIO()):
+            ns = ford.get_command_line_arguments()
+        args = dict(vars(ns))
+        try:
+            args["project_file"].close()
+        except Exception:  # noqa
+            pass
+        args.pop("project_file", None)
+        fields = {f_ for f_ in st.ProjectSettings.__dataclass_fields__}
+        base = st.ProjectSettings(**{k: v for k, v in FILE_VALUES.items() if k in fields and v is not None}, preprocess=False)
+        eff = st.convert_types_from_commandarguments(base, args)
+        return {k: getattr(eff, k) for k in FILE_VALUES if k in fields}, sorted(k for k, v in args.items() if v is not None)
+    finally:
+        sys.argv = old
+        import shutil
+        shutil.rmtree(d, ignore_errors=True)
+
+
+def replay_cli(w):
+    eff, given = _cli_effective(w["argv"])
+    import ford.settings as st
+    fields = set(st.ProjectSettings.__dataclass_fields__)
+    want = {k: v for k, v in FILE_VALUES.items() if k in fields}
+    want.update({k: v for k, v in w["cli"].items() if k in want})
+    norm = lambda v: [str(x) for x in v] if isinstance(v, list) else (str(v) if hasattr(v, "parts") else v)
+    diff = {k: (norm(eff[k]), norm(want[k])) for k in want if want[k] is not None and norm(eff[k]) != norm(want[k])}
+    return bool(diff), {"command line": w["argv"], "options that argparse reports as given": given, "effective != (command line, else project file)": diff}
+
+
+@obligation("C15", "O4.absent-cli-option-keeps-file-value", engine="SX(CV)", timeout=300)
+def cli_absent(ctx):
+    """the real argparse declaration: for a symbolic command line (none or one of several options) every option of the project file that
+    is not given on the command line keeps the file's value; the given one takes the command-line value"""
+    import ford
+    import ford.settings as st
+
+    ctx.encode_fn(ford.get_command_line_arguments)
+    ctx.encode_fn(st.convert_types_from_commandarguments)
+    ctx.bounds.update({"command lines": [a for a, _ in CLI_FLAGS], "file options": sorted(FILE_VALUES)})
+
+    def h(E):
+        i = CV.choice(E, "cli", list(range(len(CLI_FLAGS)))).concretize()   # sys.argv is concrete text
+        argv, cli = CLI_FLAGS[i]
+        E.e.snapshot = lambda m: {"argv": argv, "cli": cli}
+        bad, detail = replay_cli({"argv": argv, "cli": cli})
+        E.reachable("parsed")
+        E.require(not bad, "an option absent from the command line overrides the project file (or a given one does not win): " + str(sorted(detail[list(detail)[-1]]))[:120])
+
+    E = sym.Engine(ctx, max_paths=200, incremental=True)
+    found = E.explore(h)
+    seen = set()
+    for (label, m, pc), snap in zip(found, E.snapshots):
+        if not snap or str(snap["argv"]) in seen:
+            continue
+        seen.add(str(snap["argv"]))
+        ctx.report(label, snap, replay_cli)
+        if len(seen) >= 3:
+            break
+    if E.reached.get("parsed"):
+        ctx.twins += 1
+    else:
+        ctx.inconclusive.append("vacuity: command line never parsed")
+    ctx.sample({"paths": E.paths})
